@@ -186,7 +186,9 @@ def c04_after_history(E, k=1):
                 return real.real(name, lo, hi)
             return real.pick(name, [hi, lo if lo != 0 else hi / 2.0])
     E_ops = ConcreteCoefficients()
-    names = [n for n in OPS if n not in ("cons_vars", "copy", "merge", "detached_edit", "groups", "repair")]
+    # operations that add user constraints (cons_vars, fix_objective) are left out: with an extra row the duals are those of
+    # another problem than the flux-balance problem the oracle is built for
+    names = [n for n in OPS if n not in ("cons_vars", "fix_objective", "copy", "merge", "detached_edit", "groups", "repair")]
     shape = E.pick("history", ["edits", "remove, edit the detached reaction, restore by leaving the context"])
     ctx = shape != "edits" or E.flag("inside_context_then_left")
     if ctx:
